@@ -24,9 +24,10 @@ def run(ctx):
     l1, l2 = laws1(ctx), laws2(ctx)
     ctx.harness("roll2", binp, ["replay-roll2", "--in", r2["emitted"]] + extra + l2)
     ctx.harness("trend", binp, ["replay-roll1", "--kernels", TREND, "--in", r1["emitted"]] + extra + l1)
-    if not q:
-        r3 = ctx.tlc("roll2-sim", "MCRoll2", "MCRoll2_sim.cfg", sim=(3000, 9), workers=12, timeout=3000)
-        ctx.harness("roll2-sim", binp, ["replay-roll2", "--in", r3["emitted"], "--full"] + l2)
+    # random deep pair histories (length 9, windows to 7): long enough for the running sums to carry rounding
+    # residue in non-dyadic units (this is what exposed the single-pair ts_vcorr defect)
+    r3 = ctx.tlc("roll2-sim", "MCRoll2", "MCRoll2_sim.cfg", sim=(40 if q else 3000, 9), workers=12, timeout=3000)
+    ctx.harness("roll2-sim", binp, ["replay-roll2", "--in", r3["emitted"]] + extra + l2)
     n = 2 if q else 8
     for i in range(n):
         runs, steps = (3, 250) if q else (4, 1200)
